@@ -27,6 +27,10 @@ CLAIMED = {
          "generated search: after every call that reports success each document's serialisation must parse completely and denote the merged canonical tree the live DOM reports; string arguments contain the markup-significant characters so that forbidden sequences arise from combinations of harmless edits",
          "trusted: canonical extraction; a panic of a factory counts as refusal (C13 judges panics); histories end when a refused call changed a document (C13's subject) or the DOCTYPE/document element is taken away",
          "DESIGN.md section 5, C15"),
+ "C02": ("property-based testing (proptest): token-level and character-level mutants of generated well-formed documents judged by an independent reference recognizer (differentially validated against expat and libxml2); violations confirmed with pyexpat/xmllint",
+         "generated search: every mutant the reference recognizer vp-wf classifies as ill-formed must be answered with Err or a non-empty rest by from_raw and from_raw_with_context; 31 rule-directed mutators plus character edits; candidate violations are shown to pyexpat/xmllint before being reported",
+         "trusted: the recognizer oracles/wf (std-only Rust, written from the XML 1.0 5th Ed. text, 10M-input differential campaign against expat and libxml2 recorded in oracles/wf/NOTES.md); inputs outside its profile are discarded and counted",
+         "DESIGN.md section 5, C02"),
 }
 ALL = ["C%02d" % i for i in range(1, 20)]
 PENDING_REASON = "check not built yet in this snapshot of /verif (work in progress; DESIGN.md section 5 describes the planned generated-search check)"
